@@ -203,7 +203,7 @@ pub fn c10_cell(spec: &Value) -> Value {
                     acc.one(&base[..l], "truncate");
                 }
                 for i in 0..base.len() {
-                    for r in [0x00u8, 0xFF, b'0', b'x'] {
+                    for r in [0x00u8, 0xFF, b'0', b'x', b'-', b'+'] {
                         if base[i] != r {
                             let mut m = base.clone();
                             m[i] = r;
@@ -265,6 +265,8 @@ fn mutation_corpus() -> Vec<Vec<u8>> {
         rc::encode(&RPacket::Error { code: 7, msg: vec![] }),
         rc::encode(&RPacket::Oack(vec![o("blksize", "512"), o("tsize", "18446744073709551615")])),
         rc::encode(&RPacket::Oack(vec![])),
+        rc::encode(&RPacket::Oack(vec![o("windowsize", "16")])),
+        rc::encode(&RPacket::Rrq { filename: b"f".to_vec(), mode: b"octet".to_vec(), options: vec![o("timeout", "10")] }),
     ]
 }
 
